@@ -34,7 +34,8 @@ def main():
     ds = [d for d in sorted(os.listdir(os.path.join(VERIF, "seeded")))
           if os.path.exists(os.path.join(VERIF, "seeded", d, "patch.diff")) and (not only or only in d)]
     rows = []
-    with ProcessPoolExecutor(10) as ex:
+    import glob
+    with ProcessPoolExecutor(12, initializer=selftest._own_cache) as ex:      # each worker: own fact cache / target directory
         for d, fired in ex.map(one, ds):
             prop = d.split("-")[0]
             mp = os.path.join(VERIF, "seeded", d, "meta.json")
@@ -46,6 +47,8 @@ def main():
                 json.dump(meta, open(mp, "w"), indent=1)
             rows.append((d, prop in fired, fired))
             print("%-12s own=%-5s %s" % (d, prop in fired, {k: v[:3] for k, v in fired.items()}), flush=True)
+    for c in glob.glob("/tmp/chiritori-selfcache-*"):
+        shutil.rmtree(c, ignore_errors=True)
     n = len(rows)
     print("%d seeds: %d caught by the property's own check, %d caught by some check, %d missed / not applicable" % (
         n, sum(1 for r in rows if r[1]), sum(1 for r in rows if r[2] and "_error" not in r[2]), sum(1 for r in rows if not r[2] or "_error" in r[2])))
